@@ -3,17 +3,7 @@
 //@include prelude/net.rs
 //@include prelude/helpers.rs
 
-// ================= info_hash.rs (types only; bit-level facts come from Kani, see lbc_ax) =================
-//@begin const src/info_hash.rs - INFO_HASH_LEN
-pub const INFO_HASH_LEN: usize = 20;
-//@end
-//@begin type src/info_hash.rs - struct InfoHash
-#[derive(Structural, Copy, Clone, PartialEq, Eq)]
-pub struct InfoHash(pub [u8; INFO_HASH_LEN]);
-//@end
-//@begin type src/info_hash.rs - type NodeId
-pub type NodeId = InfoHash;
-//@end
+//@include inc/info_hash_types.rs
 
 // ================= node.rs =================
 //@begin const src/node.rs - MAX_LAST_SEEN_MINS
